@@ -28,9 +28,13 @@ func (o SortOrder) Fields() (fields []string) {
 	return fields
 }
 
+// Copy returns a sort order whose elements are independent of the
+// elements of o, changing the copy (see Reverse) does not affect o.
 func (o SortOrder) Copy() SortOrder {
 	rv := make(SortOrder, len(o))
-	copy(rv, o)
+	for i, oi := range o {
+		rv[i] = oi.copy()
+	}
 	return rv
 }
 
@@ -91,6 +95,30 @@ func SortBy(source TextValueSource) *Sort {
 		first: &rv.missingFirst,
 	})
 
+	return rv
+}
+
+// copy returns a Sort with the same source and settings as s.  The
+// missing value replacement installed by SortBy refers to the direction
+// and missing-first settings of its Sort, so it is re-built to refer to
+// the settings of the copy.
+func (s *Sort) copy() *Sort {
+	if s == nil {
+		return nil
+	}
+	rv := &Sort{
+		source:       s.source,
+		desc:         s.desc,
+		missingFirst: s.missingFirst,
+	}
+	if mtv, ok := s.source.(*MissingTextValueSource); ok {
+		if fl, ok := mtv.replacement.(*sortFirstLast); ok && fl.desc == &s.desc && fl.first == &s.missingFirst {
+			rv.source = MissingTextValue(mtv.primary, &sortFirstLast{
+				desc:  &rv.desc,
+				first: &rv.missingFirst,
+			})
+		}
+	}
 	return rv
 }
 
